@@ -644,6 +644,11 @@ def rule_cyclic_layout(repo: Repo, rep: Report) -> int:
 
 
 def run(repo: Repo, rep: Report, tier: str) -> None:
+    if tier == "thorough":
+        gi_ = repo.func(CYC, "CyclicCodeEncoder._generate_systematic_matrix")
+        st_, d_ = cyclic_matrix_evaluated(repo, gi_)
+        if st_ in (OK, VIOLATION):
+            rep.add("CYCLIC-LAYOUT", gi_, "systematic cyclic generator evaluated for seven (n, g) (thorough tier)", st_, d_, node=gi_.node)
     thorough = tier == "thorough"
     n = rule_golay(repo, rep, thorough)
     n += rule_tables(repo, rep, thorough)
